@@ -1233,10 +1233,14 @@ class Evaluator:
             raise AnalysisError("declaration helper recursion too deep")
         node = f.node
         a = node.args  # type: ignore[attr-defined]
-        if a.vararg or a.kwarg:
-            return Opaque("helper with *args/**kwargs")
+        if a.kwarg:
+            return Opaque("helper with **kwargs")
         pos = a.posonlyargs + a.args
         local: Dict[str, Any] = {}
+        if a.vararg:
+            # def helper(a, b, *rest): the surplus positional arguments, as a tuple
+            local[a.vararg.arg] = tuple(args[len(pos):])
+            args = args[:len(pos)]
         source = self.sources.get(f.short, "")
         defaults = dict(zip([x.arg for x in reversed(pos)], reversed(a.defaults)))
         for x, d in zip(a.kwonlyargs, a.kw_defaults):
